@@ -8,6 +8,7 @@ package main
 import (
 	"context"
 	"encoding/json"
+	"errors"
 	"fmt"
 	"io"
 	logslog "log/slog"
@@ -47,6 +48,12 @@ func c12args() []any {
 		return []any{slog.NewAttr("k", 1), slog.NewAttr("s", "two words")}
 	case -2: // one Attrs value
 		return []any{slog.Attrs{slog.NewAttr("k", 1)}}
+	case -3: // one Attrs value with 200 members (more than the pooled attribute slice holds)
+		as := make(slog.Attrs, 0, 200)
+		for i := 0; i < 200; i++ {
+			as = append(as, slog.NewAttr(fmt.Sprintf("k%03d", i), i))
+		}
+		return []any{as}
 	}
 	return []any{"k", 1}
 }
@@ -60,8 +67,15 @@ type c12entry struct {
 	call    func(l slog.Logger, sev slog.Level, msg string)
 }
 
+// c12ctx is the context the context-taking entry points are given (nil in the "nilctx-ctxkeys" variant).
+var c12ctx = context.Background()
+
+type c12failW struct{}
+
+func (c12failW) Write(p []byte) (int, error) { return 0, errors.New("disk full") }
+
 func c12entries() []c12entry {
-	ctx := context.Background()
+	ctx := c12ctx
 	return []c12entry{
 		{"verb", false, false, func(l slog.Logger, sev slog.Level, m string) { c12verb(l, sev, m) }},
 		{"Context verb", false, false, func(l slog.Logger, sev slog.Level, m string) { c12ctxverb(l, ctx, sev, m) }},
@@ -233,8 +247,19 @@ func c12setup(cas c12case, recFile string) (slog.Logger, *os.File) {
 		// a third of the cases log to the library's own file writer
 		dest = slog.NewFileWriter(recFile)
 	}
+	if cas.Extra == "nilctx-ctxkeys" {
+		c12ctx = nil
+	}
 	mk := func(l slog.Logger) slog.Logger {
 		l.SetWriter(dest).SetErrorWriter(dest)
+		switch cas.Extra {
+		case "nilctx-ctxkeys":
+			// a logger with registered context keys is handed a nil context
+			l.SetContextKeys("ck1", "ck2")
+		case "failing-writer":
+			// a second destination of each class fails every Write: the call still terminates, the healthy one has the record
+			l.AddWriter(c12failW{}).AddErrorWriter(c12failW{})
+		}
 		l.SetLevel(slog.Level(cas.Level)) // (Debug/Trace switch the process-wide modes on - deliberately left on)
 		switch cas.Format {
 		case "json":
@@ -421,6 +446,10 @@ func c12eval(cas c12case, scratch string) (*Violation, string) {
 	}
 	effective := (!cas.TestMode || cas.IntAlw) && !cas.NoInt
 	recOK := strings.HasSuffix(record, "\n") && strings.Count(record, "\n") == 1 && strings.Contains(record, c12msg)
+	if cas.Extra == "failing-writer" {
+		// the diagnostic about the failed destination may follow the record on the healthy one
+		recOK = strings.HasSuffix(record, "\n") && strings.Count(record, c12msg) == 1
+	}
 	if !admitted {
 		if record != "" {
 			return mk("not-admitted-silent", "a record was written although the call is not admitted"), ""
@@ -505,6 +534,11 @@ func c12run(c *Ctx) {
 									variants = append(variants, [3]any{-1, "", ""}, [3]any{2, "", "scope"})
 								} else {
 									variants = append(variants, [3]any{2, "", "scope"})
+								}
+								if c.Thorough() || n%3 == 0 {
+									// larger / rarer shapes: one Attrs argument with 200 members; a nil context on a logger with
+									// context keys; a second, failing destination
+									variants = append(variants, [3]any{-3, "", ""}, [3]any{2, "nilctx-ctxkeys", ""}, [3]any{2, "failing-writer", ""})
 								}
 								for vi, vr := range variants {
 									cas := c12case{Entry: e.name, Sev: int(sev), NoInt: noint, IntAlw: alw, TestMode: tm, Level: int(L), Format: f, NArgs: vr[0].(int), Extra: vr[1].(string), FlagPath: vr[2].(string)}
